@@ -21,6 +21,12 @@ use crate::prng::Prng;
 use crate::util::*;
 
 pub fn generate_c16(seed: u64, thorough: bool, known: &HashSet<String>) -> Trace {
+    generate_c16_profile(seed, thorough, known, false)
+}
+
+/// `flush_heavy`: more flushes, metadata updates and updates that leave the root unchanged (what a crash right
+/// after an acknowledged flush is sensitive to).
+pub fn generate_c16_profile(seed: u64, thorough: bool, known: &HashSet<String>, flush_heavy: bool) -> Trace {
     let mut rng = Prng::new(seed);
     let depth = if thorough && rng.chance(1, 40) {
         20
@@ -42,11 +48,23 @@ pub fn generate_c16(seed: u64, thorough: bool, known: &HashSet<String>) -> Trace
     if known.contains("pm_batch_mixed") || known.contains("pm_batch_mixed_flags") {
         w[6] = 0;
     }
+    if flush_heavy {
+        w[7] = 9;
+        w[8] = 9;
+        w[9] = 2;
+    }
     for _ in 0..nsteps {
         let op = match rng.weighted(&w) {
-            0 => Op::Set { i: gen_pos(&mut rng, &m), v: gen_value(&mut rng, &mut uniq) },
+            0 => {
+                if flush_heavy && rng.chance(1, 3) {
+                    // a write of the default value above the mark moves only the leaf count: the root stays
+                    Op::Set { i: (m.hwm + rng.usize_below(3)).min(m.cap() - 1), v: Fr::from(0u64) }
+                } else {
+                    Op::Set { i: gen_pos(&mut rng, &m), v: gen_value(&mut rng, &mut uniq) }
+                }
+            }
             1 => Op::Delete { i: gen_pos(&mut rng, &m) },
-            2 => Op::Append { v: gen_value(&mut rng, &mut uniq) },
+            2 => Op::Append { v: if flush_heavy && rng.chance(1, 3) { Fr::from(0u64) } else { gen_value(&mut rng, &mut uniq) } },
             3 => {
                 let start = rng.usize_below(m.cap());
                 let n = 1 + rng.usize_below((m.cap() - start).min(6));
